@@ -286,6 +286,29 @@ def _execute_short(sc):
                 if ok and abs(float(got) - want) > 1e-8 + 1e-5 * abs(want) + 1e-9 / max(Zs, 1e-9):
                     out.violation(f"lm:chain-rule:{be}", sig={"backend": be}, string=list(ctx), got=repr(float(got)),
                                   want=repr(want), Z=repr(Zs), schedule=si)
+        # p_next_seq(ctx, ext) = prefix(ctx.ext) / prefix(ctx)  (ext may end in EOS)
+        for ci in order[:20]:
+            ctx = sc["contexts"][ci]
+            cctx = tuple(tmap.get(a, a) for a in ctx)
+            if len(cctx) < 1 or gen.EOS in cctx or any(t not in V for t in cctx):
+                continue
+            k = rng_for(sc.get("query_order_seed", 0), "split", ci).randrange(len(cctx))
+            head, ext = cctx[:k], cctx[k:]
+            ph = prefix(head)
+            if ph < 1e-6:
+                continue
+            with_eos = (ci % 2 == 0)
+            num = inside(cctx) if with_eos else prefix(cctx)
+            want = num / ph
+            ext2 = ext + ((gen.EOS,) if with_eos else ())
+            for be in ("earleylm", "rescaledlm", "ckylm"):
+                if be not in objs:
+                    continue
+                ok, got = guarded(out, be, lambda: objs[be].p_next_seq(head, ext2), sig={"backend": be, "q": "p_next_seq"})
+                out.evals += 1
+                if ok and abs(float(got) - want) > 1e-7 + 1e-9 / ph + 1e-5 * abs(want):
+                    out.violation(f"lm:p_next_seq:{be}", sig={"backend": be}, ctx=list(ctx), split=k, eos=with_eos,
+                                  got=repr(float(got)), want=repr(want), schedule=si)
     out.probes.update({f"chaos_{k}": v for k, v in chaos.stats().items()})
     out.sample = {"kind": "short", "grammar": ab["rules"], "normalize": ab.get("normalize"),
                   "n_contexts": len(sc["contexts"]), "features": ab.get("features")}
